@@ -27,7 +27,7 @@ fn ref_cosine(a: &[usize], b: &[usize], w: &dyn Fn(usize) -> f64) -> f64 {
     num / (na * nb)
 }
 
-fn ksp_strategy(max_n: usize) -> BoxedStrategy<SearchCase> {
+pub fn ksp_strategy(max_n: usize) -> BoxedStrategy<SearchCase> {
     // underlying A* only on metric networks (the first route must be least-cost)
     any::<bool>()
         .prop_flat_map(move |astar| {
